@@ -17,7 +17,8 @@ vars == <<stage, scr>>
 
 Styles == {[ws |-> 0, kw |-> 0, quote |-> FALSE], [ws |-> 1, kw |-> 1, quote |-> TRUE], [ws |-> 2, kw |-> 2, quote |-> FALSE],
            [ws |-> 0, kw |-> 2, quote |-> TRUE], [ws |-> 1, kw |-> 0, quote |-> FALSE], [ws |-> 2, kw |-> 1, quote |-> TRUE],
-           [ws |-> 0, kw |-> 0, quote |-> TRUE, esc |-> 1], [ws |-> 1, kw |-> 1, quote |-> FALSE, esc |-> 1]}
+           [ws |-> 0, kw |-> 0, quote |-> TRUE, esc |-> 1], [ws |-> 1, kw |-> 1, quote |-> FALSE, esc |-> 1],
+           [ws |-> 0, kw |-> 0, quote |-> FALSE, nesc |-> 1], [ws |-> 1, kw |-> 0, quote |-> FALSE, nesc |-> 2]}
 Plain == [ws |-> 0, kw |-> 0, quote |-> FALSE]
 
 \* number literals with their lexemes: unsigned, negative, fractional, exponent
@@ -29,7 +30,8 @@ LitFL2 == << <<f1000.b, <<49, 48, 48, 48, 46, 48>> >>, <<f15.b, <<49, 46, 53, 48
 \* a non-negative number has one spelling and reads back unsigned, so signed non-negative literals are not syntax
 SynLits == (Lits \ {PNum(i1)}) \cup {PNum(f1000), PNum(fm25), PNum(f5em1), PNum(im1), PNum(u2p53p1), PNum(umax), PNum(imin), PNum(u0),
                       PStr(<<97, 34, 98>>), PStr(<<195, 169>>), PStr(<<92>>), PStr(<<97, 32, 98>>), PStr(<<10>>), PStr(<<47, 8, 12, 13, 240, 159, 152, 128>>)}
-SynNames == {ka, kab, <<97, 95, 49>>, kE, <<97, 32, 98>>, <<34>>, kEmpty, <<36>>, <<97, 47, 98>>, <<240, 159, 152, 128, 9>>}
+SynNames == {ka, kab, <<97, 95, 49>>, kE, <<97, 32, 98>>, <<34>>, kEmpty, <<36>>, <<97, 47, 98>>, <<240, 159, 152, 128, 9>>,
+             <<127>>, <<101, 204, 129>>, <<226, 128, 139>>}
 
 SynCmps == {EBin(op, EPaths(<<Cur, Dot(ka)>>), EVal(v)) : op \in CmpOps, v \in {PNum(u1)}}
            \cup {EBin("eq", EPaths(<<Cur>>), EVal(v)) : v \in SynLits}
@@ -98,11 +100,13 @@ EmitSoup2 == \E bs \in [1..2 -> {34, 92, 117, 123, 97, 48}], pre \in {<<36, 46>>
 KpElems == {[i |-> 0], [i |-> 1], [i |-> -1], [i |-> 2147483647], [i |-> (0 - 2147483647) - 1],
             [n |-> ka], [n |-> kab], [n |-> <<97, 95, 49>>], [n |-> kE],
             [q |-> ka], [q |-> kEmpty], [q |-> <<97, 34, 98>>], [q |-> <<97, 32, 98>>], [q |-> kE], [q |-> <<49>>], [q |-> <<92>>],
-            [q |-> <<97, 47, 98>>], [q |-> <<10, 240, 159, 152, 128>>]}
+            [q |-> <<97, 47, 98>>], [q |-> <<10, 240, 159, 152, 128>>], [q |-> <<127>>], [q |-> <<101, 204, 129>>], [q |-> <<226, 128, 139>>],
+            [n |-> <<101, 204, 129>>]}
 KpLists == UNION {[1..k -> KpElems] : k \in 0..2} \cup {<<[i |-> 1], [n |-> ka], [i |-> -2]>>, <<[n |-> ka], [q |-> kb], [q |-> <<99>>], [i |-> 0]>>}
 KpParse(text, want) == [op |-> "kp_parse", raw |-> <<text>>, a |-> [want |-> want, plain |-> IF KpPlain(want) THEN 1 ELSE 0]]
 KpErr(text) == [op |-> "kp_parse", raw |-> <<text>>, a |-> [expect |-> "err"]]
-EmitKp == \E kp \in KpLists, st \in {Plain, [ws |-> 1, kw |-> 0, quote |-> FALSE], [ws |-> 2, kw |-> 0, quote |-> FALSE], [ws |-> 0, kw |-> 0, quote |-> FALSE, esc |-> 1]} : Out(KpParse(KeyPathText(kp, st), kp))
+EmitKp == \E kp \in KpLists, st \in {Plain, [ws |-> 1, kw |-> 0, quote |-> FALSE], [ws |-> 2, kw |-> 0, quote |-> FALSE], [ws |-> 0, kw |-> 0, quote |-> FALSE, esc |-> 1],
+               [ws |-> 0, kw |-> 0, quote |-> FALSE, nesc |-> 1], [ws |-> 1, kw |-> 0, quote |-> FALSE, nesc |-> 2]} : Out(KpParse(KeyPathText(kp, st), kp))
 EmitKpFaults ==
   \E kp \in KpLists :
     LET t == KeyPathText(kp, Plain)
@@ -114,12 +118,32 @@ EmitKpFaults ==
        \/ Out(KpErr(Sub(t, 1, Len(t) - 1) \o (IF Len(kp) > 0 THEN <<44>> ELSE <<>>) \o <<45, 125>>))       \* sign without digits
        \/ Out(KpErr(t \o <<125>>)) \/ Out(KpErr(t \o <<97>>))                                            \* trailing garbage
 
+\* spellings at the edge of the language: whether they are accepted is not specified here, a panic is not allowed
+T(str) == str
+OddPathTexts ==
+  {<<36,91,108,97,115,116,32,45,32,45,50,49,52,55,52,56,51,54,52,56,93>>,   \* $[last - -2147483648]
+   <<36,91,108,97,115,116,45,45,49,93>>, <<36,91,108,97,115,116,43,45,49,93>>, <<36,91,108,97,115,116,43,45,50,49,52,55,52,56,51,54,52,56,93>>,
+   <<36,91,50,49,52,55,52,56,51,54,52,56,93>>, <<36,91,45,50,49,52,55,52,56,51,54,52,57,93>>, <<36,91,108,97,115,116,45,50,49,52,55,52,56,51,54,52,56,93>>,
+   <<36,91,108,97,115,116,43,50,49,52,55,52,56,51,54,52,56,93>>, <<36,91,48,32,116,111,32,50,49,52,55,52,56,51,54,52,56,93>>,
+   <<36,63,40,64,61,61,49,56,52,52,54,55,52,52,48,55,51,55,48,57,53,53,49,54,49,54,41>>, <<36,63,40,64,61,61,45,57,50,50,51,51,55,50,48,51,54,56,53,52,55,55,53,56,48,57,41>>,
+   <<36,63,40,64,61,61,49,101,57,57,57,41>>, <<36,63,40,64,61,61,49,101,41>>, <<36,63,40,64,61,61,49,46,41>>, <<36,63,40,64,61,61,46,53,41>>, <<36,63,40,64,61,61,43,49,41>>,
+   <<36,63,40,64,61,61,110,97,110,41>>, <<36,63,40,64,61,61,105,110,102,41>>, <<36,63,40,64,61,61,45,105,110,102,105,110,105,116,121,41>>,
+   <<36,46,97,92>>, <<36,46,97,92,117>>, <<36,46,97,92,117,48,48>>, <<36,46,97,92,117,123,48,48,52,49>>, <<36,46,97,92,117,123,48,48,52,49,125>>, <<36,46,92,117,123,48,48,52,49,125,125>>,
+   <<36,46,34,92,117,123,48,48,52,49,34>>, <<36,46,34,92,117,68,56,48,48,34>>, <<36,46,97,92,117,68,56,48,48,92,117,68,67,48,48>>, <<36,46,34,97,92>>, <<36,46,34,97,92,34>>,
+   <<36,91,34,97,34>>, <<36,91,34,97>>, <<36,91,34>>, <<36,63,40,101,120,105,115,116,115,40,64,41>>, <<36,63,40,40,40,40,64,61,61,49,41,41,41>>}
+OddKpTexts ==
+  {<<123,50,49,52,55,52,56,51,54,52,56,125>>, <<123,45,50,49,52,55,52,56,51,54,52,57,125>>, <<123,43,49,125>>, <<123,45,125>>, <<123,107,92,117,123,48,48,52,49,125,125>>,
+   <<123,107,92,117,48,48,52,49,125>>, <<123,107,92,117,123,48,48,52,49,125>>, <<123,34,92,117,123,48,48,52,49,34,125>>, <<123,34,92,117,123,48,48,52,49,125,34,125>>,
+   <<123,97,92,125>>, <<123,97,92,117,125>>, <<123,92,117,68,56,48,48,125>>, <<123,34,92,117,68,56,48,48,34,125>>, <<123,34,97,92,34,125>>, <<123,49,97,125>>, <<123,97,32,98,125>>,
+   <<123,125,125>>, <<123,123,125>>, <<32,123,32,44,32,125>>}
+EmitOdd == (\E t \in OddPathTexts : Out(ParseAny("jp_parse", t))) \/ (\E t \in OddKpTexts : Out(ParseAny("kp_parse", t)))
+
 Init == stage = "start" /\ scr = [op |-> "none"]
 Next ==
   /\ stage = "start"
   /\ CASE Family = "paths" -> EmitPaths
        [] Family = "pathfaults" -> EmitPathFaults
-       [] Family = "soup" -> EmitSoup \/ EmitSoup2
+       [] Family = "soup" -> EmitSoup \/ EmitSoup2 \/ EmitOdd
        [] Family = "kp" -> EmitKp
        [] Family = "kpfaults" -> EmitKpFaults
        [] OTHER -> FALSE
